@@ -56,6 +56,8 @@ impl<T: UciTx + Send + Sync + 'static> UciEngine for Engine<T> {
             }
             SetDebug { debug } => {
                 self.debug = debug;
+                #[cfg(inkayaku_verif)]
+                verif::before_send();
                 self.search_tx.send(UciDebug(debug)).unwrap();
             }
             IsReady => {
@@ -73,21 +75,33 @@ impl<T: UciTx + Send + Sync + 'static> UciEngine for Engine<T> {
                 self.uci_tx.registration(ProtectionMessage::OK);
             }
             UciNewGame => {
+                #[cfg(inkayaku_verif)]
+                verif::before_send();
                 self.search_tx.send(UciUciNewGame).unwrap();
             }
             PositionFrom { fen, moves } => {
+                #[cfg(inkayaku_verif)]
+                verif::before_send();
                 self.search_tx.send(UciPositionFrom(fen, moves)).unwrap();
             }
             GoCommand { go } => {
+                #[cfg(inkayaku_verif)]
+                verif::before_send();
                 self.search_tx.send(UciGo(go)).unwrap();
             }
             Stop => {
+                #[cfg(inkayaku_verif)]
+                verif::before_send();
                 self.search_tx.send(UciStop).unwrap();
             }
             PonderHit => {
+                #[cfg(inkayaku_verif)]
+                verif::before_send();
                 self.search_tx.send(UciPonderHit).unwrap();
             }
             Quit => {
+                #[cfg(inkayaku_verif)]
+                verif::before_send();
                 self.search_tx.send(UciQuit).unwrap();
                 #[cfg(inkayaku_verif)]
                 verif::before_join();
